@@ -231,11 +231,12 @@ def make_bad(kind):
     raise ValueError(kind)
 
 
-def gen_bad(st):
-    return {"$bad": BAD_KINDS[st.choose(len(BAD_KINDS), "badkind")]}
+def gen_bad(st, kinds=None):
+    kinds = kinds or BAD_KINDS
+    return {"$bad": kinds[st.choose(len(kinds), "badkind")]}
 
 
-def gen_fields_bad(st, names, p_bad, maxn=4, exclude=()):
+def gen_fields_bad(st, names, p_bad, maxn=4, exclude=(), kinds=None, vdepth=1):
     """Like gen_fields, but each value is bad with probability p_bad."""
     out = {}
     while len(out) < maxn and st.chance(0.55, "field?"):
@@ -243,7 +244,7 @@ def gen_fields_bad(st, names, p_bad, maxn=4, exclude=()):
         if k in exclude or k in out:
             continue
         if st.chance(p_bad, "bad?"):
-            out[k] = gen_bad(st)
+            out[k] = gen_bad(st, kinds)
         else:
-            out[k] = gen_json(st, 0, 1)
+            out[k] = gen_json(st, 0, vdepth)
     return out
